@@ -680,11 +680,9 @@ def check_modifier_plumbing(ctx):
         else:
             ctx.holds(rule, fi, st, 'every argument reaches the parameter of the same meaning', c.lineno, clause='g')
     # constructors keep them where the run-time code reads them
+    from ..model import ctor_stores
     sq = repo.cls('Sequence').methods.get('__init__')
-    keep = {}
-    for n in ast.walk(sq.node):
-        if isinstance(n, ast.Assign) and isinstance(n.targets[0], ast.Attribute) and canon(n.targets[0].value) == 'self':
-            keep[n.targets[0].attr] = canon(n.value)
+    keep = {k: (sorted(v)[0] if len(v) == 1 else None) for k, v in ctor_stores(repo, repo.cls('Sequence')).items()}
     if keep.get('prototype_field') == 'prototype' and keep.get('aligned_to') == 'aligned':
         ctx.holds(rule, sq, 'Sequence.__init__: prototype_field = prototype; aligned_to = aligned', 'stored where unpack / pack read them', sq.node.lineno, clause='g')
     else:
@@ -701,10 +699,7 @@ def check_modifier_plumbing(ctx):
     else:
         ctx.violation(rule, sq, 'Sequence.__init__', 'a sequence with both or neither of count / until is accepted', sq.node.lineno, clause='g')
     op = repo.cls('Optional').methods.get('__init__')
-    keep = {}
-    for n in ast.walk(op.node):
-        if isinstance(n, ast.Assign) and isinstance(n.targets[0], ast.Attribute) and canon(n.targets[0].value) == 'self':
-            keep[n.targets[0].attr] = canon(n.value)
+    keep = {k: (sorted(v)[0] if len(v) == 1 else None) for k, v in ctor_stores(repo, repo.cls('Optional')).items()}
     if keep.get('prototype_field') == 'prototype':
         ctx.holds(rule, op, 'Optional.__init__: prototype_field = prototype', 'stored where unpack / pack read it', op.node.lineno, clause='g')
     else:
